@@ -16,7 +16,7 @@ ap.add_argument('--seed', type=int, default=int(os.environ.get('VERIF_SEED', '1'
 ap.add_argument('--repo', default=os.environ.get('VERIF_REPO', '/repo')); ap.add_argument('--govc', default='/verif/bin/govc')
 a = ap.parse_args()
 V = '/verif'
-env = dict(os.environ, GOFLAGS='-mod=mod', GOPROXY='off')
+env = dict(os.environ, GOFLAGS='-mod=mod', GOPROXY='off', VERIF_DROP_SMT='1')
 out = subprocess.run([a.govc, 'mutsites', '-prop', a.prop, '-repo', a.repo, '-verif', V], capture_output=True, text=True, env=env).stdout
 sites = [l.split('\t') for l in out.strip().split('\n') if l.count('\t') == 5]
 total = len(sites)
@@ -50,7 +50,6 @@ def run(site):
         return (site, 'invalid', str(e)[:100])
     finally:
         shutil.rmtree(scr, ignore_errors=True)
-        shutil.rmtree(os.path.join(V, 'out', a.prop), ignore_errors=True) if False else None
 
 t0 = time.time()
 res = []
